@@ -44,6 +44,10 @@ type c11State struct {
 	Routes              map[int][]string // per service (registered or not): its routes in order
 	Handled             []int            // handler patterns registered, in order
 	HandledBeforeRemove map[int]bool     // F6 signature: a Remove happened after this Handle
+	// Rejected: patterns for which a second Handle was attempted (net/http panics on a duplicate
+	// pattern; the caller recovers and goes on). Nothing was registered by it: not part of the
+	// content a fresh container is built from, but part of the history.
+	Rejected []int
 }
 
 func (s c11State) key() string {
@@ -68,6 +72,11 @@ func (s c11State) key() string {
 	}
 	sort.Ints(rm)
 	fmt.Fprintf(&sb, "%v", rm)
+	if len(s.Rejected) > 0 {
+		rj := append([]int{}, s.Rejected...)
+		sort.Ints(rj)
+		fmt.Fprintf(&sb, "|rejected%v", rj)
+	}
 	return sb.String()
 }
 
@@ -155,7 +164,7 @@ func (w *c11World) apply(o c11Op) (panicked string) {
 	case "unroute":
 		root := strings.TrimRight(w.u.Roots[o.I], "/")
 		w.ws[o.I].RemoveRoute(root+"/q", "GET")
-	case "handle":
+	case "handle", "handle-again":
 		w.c.Handle(w.u.Patterns[o.I], c11Handler(w.u.Patterns[o.I]))
 	}
 	return ""
@@ -164,7 +173,7 @@ func (w *c11World) apply(o c11Op) (panicked string) {
 // next computes the abstract successor; ok=false if the operation is outside the alphabet in
 // this state (the property's preconditions).
 func (s c11State) next(u c11Universe, o c11Op) (c11State, bool) {
-	n := c11State{Order: append([]int{}, s.Order...), Routes: map[int][]string{}, Handled: append([]int{}, s.Handled...), HandledBeforeRemove: map[int]bool{}}
+	n := c11State{Order: append([]int{}, s.Order...), Routes: map[int][]string{}, Handled: append([]int{}, s.Handled...), HandledBeforeRemove: map[int]bool{}, Rejected: append([]int{}, s.Rejected...)}
 	for i, r := range s.Routes {
 		n.Routes[i] = append([]string{}, r...)
 	}
@@ -239,6 +248,21 @@ func (s c11State) next(u c11Universe, o c11Op) (c11State, bool) {
 			}
 		}
 		n.Handled = append(n.Handled, o.I)
+	case "handle-again":
+		// a second Handle for a registered pattern: rejected with a panic, registers nothing
+		handled := false
+		for _, j := range n.Handled {
+			handled = handled || j == o.I
+		}
+		for _, j := range n.Rejected {
+			if j == o.I {
+				return n, false
+			}
+		}
+		if !handled {
+			return n, false
+		}
+		n.Rejected = append(n.Rejected, o.I)
 	}
 	return n, true
 }
@@ -263,7 +287,7 @@ func c11Ops(u c11Universe) []c11Op {
 		ops = append(ops, c11Op{"route", i}, c11Op{"route-xml", i}, c11Op{"route-json", i}, c11Op{"unroute", i})
 	}
 	for i := range u.Patterns {
-		ops = append(ops, c11Op{"handle", i})
+		ops = append(ops, c11Op{"handle", i}, c11Op{"handle-again", i})
 	}
 	return ops
 }
@@ -371,7 +395,7 @@ func c11Eval(u c11Universe, probes []c11Probe, hist []c11Op, s c11State) (issues
 				c11Answer(w, probes[pi])
 			}
 		}
-		if p := w.apply(o); p != "" {
+		if p := w.apply(o); p != "" && o.Kind != "handle-again" {
 			issues = append(issues, struct {
 				class, finding, msg string
 				c                   c11Case
@@ -523,6 +547,6 @@ func checkC11(run *h.Run) {
 	run.Cov["distinct_probe_signatures"] = sigs.Len()
 	run.Cov["exhaustive"] = true
 	run.Cov["roots"] = u.Roots
-	run.Cov["rule"] = fmt.Sprintf("E2: breadth-first search over operation histories up to depth %d; alphabet Add/Remove of %d services whose root paths collide in every way the mux registration can, Route/RemoveRoute of a dynamic route on %d of them, Handle of %d plain patterns (Add only of unregistered roots, Handle of each pattern once - the property's preconditions). A successor is computed by replaying the history on a fresh real container; the probe set is also served between the operations of a history (so that nothing memoised while serving survives a change); in every reached state all %d probes (each service's routes incl. removed ones, root URLs, handler patterns, unknown URL; GET/POST; ServeHTTP and Dispatch) must be answered exactly as by a container built directly from the state's abstract content. States are merged on abstract content (plus the observed probe signature when a state deviates from its fresh twin). Every state is non-trivial.", u.Depth, len(u.Roots), len(u.Dynamic), len(u.Patterns), len(probes))
+	run.Cov["rule"] = fmt.Sprintf("E2: breadth-first search over operation histories up to depth %d; alphabet Add/Remove of %d services whose root paths collide in every way the mux registration can, Route/RemoveRoute of a dynamic route on %d of them, Handle of %d plain patterns, and one further Handle of an already registered pattern (rejected by net/http with a panic which the caller recovers: it registers nothing) (Add only of unregistered roots - the property's precondition). A successor is computed by replaying the history on a fresh real container; the probe set is also served between the operations of a history (so that nothing memoised while serving survives a change); in every reached state all %d probes (each service's routes incl. removed ones, root URLs, handler patterns, unknown URL; GET/POST; ServeHTTP and Dispatch) must be answered exactly as by a container built directly from the state's abstract content. States are merged on abstract content (plus the observed probe signature when a state deviates from its fresh twin). Every state is non-trivial.", u.Depth, len(u.Roots), len(u.Dynamic), len(u.Patterns), len(probes))
 	run.Assume = []string{"merged states have the same futures w.r.t. the probe set and alphabet because the oracle has just shown them observationally equal to the fresh-built container"}
 }
